@@ -9,7 +9,8 @@ from ..cfg import ENTRY, EXIT
 from ..core import AnalysisError, FuncInfo, Report, call_name, dotted, unparse
 from ..ctx import Ctx
 from .sqlutil import sql_of, stmt_kind, table_of
-from .util import actual, calls_in, cguards, enclosing, kw
+from .util import (actual, calls_in, cguards, enclosing, kw,
+                   norm_compare)
 
 EXPLANATION = (
     "Structure that makes ingestion idempotent, decided on the source: "
@@ -441,12 +442,11 @@ def _filter(rep: Report, ctx: Ctx, filt: FuncInfo, raw: FuncInfo) -> None:
         t = defs.resolve_deep(guards[0].test)
         why = f"kept when '{unparse(guards[0].test)}' i.e. '{unparse(t)}'"
         # count == 0 with count = D.get(v.event_id, 0)
-        if isinstance(t, ast.Compare) and len(t.ops) == 1 and isinstance(
-                t.comparators[0], ast.Constant):
-            l, op, c = t.left, t.ops[0], t.comparators[0].value
-            is_zero = (isinstance(op, ast.Eq) and c == 0) or (
-                isinstance(op, ast.Lt) and c == 1) or (
-                isinstance(op, ast.LtE) and c == 0)
+        nc = norm_compare(t)
+        if nc is not None and isinstance(nc[2], ast.Constant):
+            l, opt, c = nc[0], nc[1], nc[2].value
+            is_zero = (opt is ast.Eq and c == 0) or (
+                opt is ast.Lt and c == 1) or (opt is ast.LtE and c == 0)
             if isinstance(l, ast.Call) and call_name(l) == "get" and len(
                     l.args) == 2 and unparse(l.args[0]) == f"{v}.event_id" \
                     and isinstance(l.args[1], ast.Constant) \
@@ -454,9 +454,9 @@ def _filter(rep: Report, ctx: Ctx, filt: FuncInfo, raw: FuncInfo) -> None:
                 counter = unparse(l.func.value)
                 ok = is_zero
         # `v.event_id not in seen`
-        if isinstance(t, ast.Compare) and len(t.ops) == 1 and isinstance(
-                t.ops[0], ast.NotIn) and unparse(t.left) == f"{v}.event_id":
-            counter = unparse(t.comparators[0])
+        if nc is not None and nc[1] is ast.NotIn and unparse(
+                nc[0]) == f"{v}.event_id":
+            counter = unparse(nc[2])
             ok = True
     rep.ob("R10.6", "a span is kept iff its id was not seen before in the "
            "batch", ok, fi=filt, node=guards[0] if guards else keep,
